@@ -100,6 +100,8 @@ type TypeContract struct {
 	Ghost     map[string]*GhostField
 	LockInv   map[string][]*LockInv // mutex field -> invariants
 	Guards    map[string][]string // mutex field -> foreign locations (T.f, pkg.T.f, elems(T)) it also protects
+	Protects  map[string]string // field -> mutex: the (externally synchronised) object the field points to is protected by mu
+	Sinks     map[string]string // field -> mutex ("" = none declared): shared sinks written by concurrent requests
 	ExtSync   bool
 	Mutators  map[string]bool // methods that mutate an extsync object
 	SetupOnly map[string]bool // methods that are set-up calls (may write immutable fields)
@@ -141,7 +143,7 @@ type Contracts struct {
 	Nclause int
 }
 
-var keywordRe = regexp.MustCompile(`^(spec|pred|axiom|lemma|globalinv|stablekeys|type|func|iface|functype|extern|props|atomic|holds|at_call|requires|ensures|ensures_panic|ghost_ensures|modifies|loop|assume|nopanic|maypanic|trusted|pure|readsclock|noaxioms|onlyaxioms|wiring|params|immutable|stable|guards|guarded_by|ghost|lockinv|extsync|mutators|setup|strings|noinline)\b`)
+var keywordRe = regexp.MustCompile(`^(spec|pred|axiom|lemma|globalinv|stablekeys|type|func|iface|functype|extern|props|atomic|holds|at_call|requires|ensures|ensures_panic|ghost_ensures|modifies|loop|assume|nopanic|maypanic|trusted|pure|readsclock|noaxioms|onlyaxioms|wiring|params|immutable|stable|guards|sink|protects|guarded_by|ghost|lockinv|extsync|mutators|setup|strings|noinline)\b`)
 
 var labelRe = regexp.MustCompile(`^([A-Za-z_][A-Za-z_0-9]*):([^:]|$)`)
 var propsRe = regexp.MustCompile(`^\{([A-Z0-9, ]+)\}\s*`)
@@ -276,7 +278,7 @@ func (cs *Contracts) LoadContractFile(path, pkg string) error {
 			}
 			curF, curT = nil, nil
 		case "type":
-			curT = &TypeContract{Pkg: pkg, Name: rest, Immutable: map[string]bool{}, Stable: map[string]bool{}, Guarded: map[string]string{}, Ghost: map[string]*GhostField{}, LockInv: map[string][]*LockInv{}, Guards: map[string][]string{}, Mutators: map[string]bool{}, SetupOnly: map[string]bool{}}
+			curT = &TypeContract{Pkg: pkg, Name: rest, Immutable: map[string]bool{}, Stable: map[string]bool{}, Guarded: map[string]string{}, Ghost: map[string]*GhostField{}, LockInv: map[string][]*LockInv{}, Guards: map[string][]string{}, Sinks: map[string]string{}, Protects: map[string]string{}, Mutators: map[string]bool{}, SetupOnly: map[string]bool{}}
 			tp := pkg
 			name := rest
 			if i := strings.LastIndex(rest, "."); i >= 0 { // foreign type: pkgpath.T
@@ -308,6 +310,30 @@ func (cs *Contracts) LoadContractFile(path, pkg string) error {
 			}
 			for _, f := range strings.Fields(strings.ReplaceAll(rest, ",", " ")) {
 				curT.Stable[f] = true
+			}
+		case "sink":
+			if curT == nil {
+				return fail(l, "sink outside type")
+			}
+			fs := strings.Fields(rest)
+			if len(fs) == 0 {
+				return fail(l, "sink FIELD [guarded_by MU]")
+			}
+			mu := ""
+			if len(fs) >= 3 && fs[1] == "guarded_by" {
+				mu = fs[2]
+			}
+			curT.Sinks[fs[0]] = mu
+		case "protects":
+			if curT == nil {
+				return fail(l, "protects outside type")
+			}
+			i := strings.Index(rest, ":")
+			if i < 0 {
+				return fail(l, "protects mu: fields")
+			}
+			for _, f := range strings.Fields(strings.ReplaceAll(rest[i+1:], ",", " ")) {
+				curT.Protects[f] = strings.TrimSpace(rest[:i])
 			}
 		case "guards":
 			if curT == nil {
